@@ -1076,6 +1076,11 @@ def replay(ctx, path):
     flat.update(rec.get('case') or {})
     print(json.dumps({k: v for k, v in flat.items() if k not in ('tree', 'case', 'jedi', 'traceback')},
                      indent=1, ensure_ascii=False)[:3000])
+    if (rec.get('sig') or {}).get('stream') == 'two-projects' and rec.get('task'):
+        common.setup_jedi(os.path.join(ctx.tmp, 'cache'))
+        t = dict(rec['task'], base=os.path.join(ctx.tmp, 'twoproj_replay'))
+        print('implementation now:', json.dumps(_two_projects_task(t), indent=1))
+        return 0
     if 'traceback' in rec:
         print(rec['traceback'])
     common.setup_jedi(os.path.join(ctx.tmp, 'cache'))
